@@ -590,4 +590,74 @@ theorem mem_tids_of_poised {P : Prog F} {s : St F} (hi : Inv P s) {t : Tid} {a :
   · simp [tids, ht]
   · rw [code_nil_of_ge ht] at hm; simp [points, pointsFrom] at hm
 
+
+/-- which statement a static point belongs to -/
+def PointOf (x : Stmt F) (pt : Point F) : Prop :=
+  (x = .acc pt.acc.1 pt.acc.2 ∧ pt.held = false) ∨ (∃ body, x = .locked body ∧ pt.acc ∈ body ∧ pt.held = true)
+
+theorem pointsFrom_stmt {b l : List (Stmt F)} {pt : Point F} (h : pt ∈ pointsFrom b l) :
+    ∃ x ∈ l, PointOf x pt := by
+  induction l generalizing b with
+  | nil => simp [pointsFrom] at h
+  | cons y r ih =>
+    cases y with
+    | acc f k =>
+      simp only [pointsFrom, List.mem_cons] at h
+      rcases h with h | h
+      · subst h; exact ⟨_, List.mem_cons_self .., Or.inl ⟨rfl, rfl⟩⟩
+      · obtain ⟨x, hx, hp⟩ := ih h; exact ⟨x, List.mem_cons_of_mem _ hx, hp⟩
+    | locked body =>
+      simp only [pointsFrom, List.mem_append, List.mem_map] at h
+      rcases h with ⟨a, ha, h⟩ | h
+      · subst h; exact ⟨_, List.mem_cons_self .., Or.inr ⟨body, rfl, ha, rfl⟩⟩
+      · obtain ⟨x, hx, hp⟩ := ih h; exact ⟨x, List.mem_cons_of_mem _ hx, hp⟩
+    | spawn u => obtain ⟨x, hx, hp⟩ := ih (by simpa [pointsFrom] using h); exact ⟨x, List.mem_cons_of_mem _ hx, hp⟩
+    | join u => obtain ⟨x, hx, hp⟩ := ih (by simpa [pointsFrom] using h); exact ⟨x, List.mem_cons_of_mem _ hx, hp⟩
+    | send c => obtain ⟨x, hx, hp⟩ := ih (by simpa [pointsFrom] using h); exact ⟨x, List.mem_cons_of_mem _ hx, hp⟩
+    | recv c => obtain ⟨x, hx, hp⟩ := ih (by simpa [pointsFrom] using h); exact ⟨x, List.mem_cons_of_mem _ hx, hp⟩
+
+theorem point_stmt {l : List (Stmt F)} {pt : Point F} (h : pt ∈ points l) : ∃ x ∈ l, PointOf x pt :=
+  pointsFrom_stmt h
+
+end Varlink.Race
+
+namespace Varlink.Race
+open Varlink.Extracted
+
+/-- a statement of a thread of an intended use that carries the point `pt` comes from an entry of the
+    table with the same access and the same lock state -/
+theorem stmt_access {tbl : List Access} {fns : List Fn} {x : Stmt SField} {pt : Point SField}
+    (h : isSync x = true ∨ ∃ f ∈ fns, x ∈ fnStmts tbl f) (hp : PointOf x pt) :
+    ∃ f ∈ fns, ∃ A ∈ tbl, A.fn = f ∧ accOf A = some pt.acc ∧ (A.lock = .held ↔ pt.held = true) := by
+  rcases h with h | ⟨f, hf, hx⟩
+  · rcases hp with ⟨e, _⟩ | ⟨body, e, _, _⟩ <;> (subst e; simp [isSync] at h)
+  · refine ⟨f, hf, ?_⟩
+    simp only [fnStmts, List.mem_filterMap] at hx
+    obtain ⟨A, hA, hx⟩ := hx
+    refine ⟨A, hA, ?_⟩
+    split at hx
+    · rename_i hfn
+      cases hacc : accOf A with
+      | none => simp [hacc] at hx
+      | some a =>
+        simp only [hacc, Option.some.injEq] at hx
+        by_cases hl : A.lock = .held
+        · simp only [hl, if_true] at hx
+          rcases hp with ⟨e, _⟩ | ⟨body, e, hm, hh⟩
+          · rw [e] at hx; cases hx
+          · rw [e] at hx
+            have : body = [a] := by cases hx; rfl
+            subst this
+            simp only [List.mem_singleton] at hm
+            exact ⟨hfn, by rw [hm], by simp [hl, hh]⟩
+        · simp only [hl, if_false] at hx
+          rcases hp with ⟨e, hh⟩ | ⟨body, e, _, _⟩
+          · rw [e] at hx
+            have : a = pt.acc := by
+              have h1 := hx; simp only [Stmt.acc.injEq] at h1
+              exact Prod.ext h1.1 h1.2
+            exact ⟨hfn, by rw [this], by simp [hl, hh]⟩
+          · rw [e] at hx; cases hx
+    · simp at hx
+
 end Varlink.Race
